@@ -200,11 +200,79 @@ def work(chunk, st):
         check(prod, version, banner, kind, st)
 
 
+HISTORY_KINDS = ['clean', 'gex2048', 'terrapin-hardened', 'asym-s2c-weak', 'exposed', 'smallrsa']
+
+
+def history_server(kind, banner):
+    if kind == 'exposed':
+        return P.Server(kex=['curve25519-sha256'], key=['ssh-ed25519'], enc=['aes256-ctr', 'aes128-cbc', 'chacha20-poly1305@openssh.com'],
+                        mac=['hmac-sha2-256', 'hmac-sha2-512-etm@openssh.com'], banner=banner, host_keys=P.standard_host_keys(['ssh-ed25519']))
+    if kind == 'terrapin-hardened':
+        return P.Server(kex=['curve25519-sha256', 'kex-strict-s-v00@openssh.com'], key=['ssh-ed25519'], enc=['aes256-ctr', 'aes128-cbc', 'chacha20-poly1305@openssh.com'],
+                        mac=['hmac-sha2-256', 'hmac-sha2-512-etm@openssh.com'], banner=banner, host_keys=P.standard_host_keys(['ssh-ed25519']))
+    if kind == 'smallrsa':
+        return P.Server(kex=['curve25519-sha256'], key=['rsa-sha2-512', 'ssh-ed25519'], enc=['aes256-ctr'], mac=['hmac-sha2-256'], banner=banner,
+                        host_keys=P.standard_host_keys(['rsa-sha2-512', 'ssh-ed25519'], rsa_bits=1024))
+    return make_server(kind, banner)[0]
+
+
+def consistency_problems(doc):
+    """C13 rules that need nothing but one JSON report."""
+    out = []
+    notes = {}
+    for cat in CATS:
+        for e in doc.get(cat, []):
+            notes[(cat, e['algorithm'])] = e.get('notes', {})
+    for level, acts in doc.get('recommendations', {}).items():
+        for action, cats in acts.items():
+            for cat, lst in cats.items():
+                for x in lst:
+                    nn = notes.get((cat, x['name']))
+                    if action in ('del', 'chg'):
+                        if nn is None:
+                            out.append(('removal-of-unadvertised-algorithm', cat, x['name']))
+                        elif not (nn.get('fail') or nn.get('warn')):
+                            out.append(('removal-of-algorithm-without-fail-or-warn', cat, x['name']))
+                        elif (level == 'critical') != bool(nn.get('fail')):
+                            out.append(('critical-not-iff-failure', cat, x['name']))
+                    elif nn is not None:
+                        out.append(('addition-of-advertised-algorithm', cat, x['name']))
+    rec_del = set((cat, x['name']) for lvl in doc.get('recommendations', {}).values() for a in ('del', 'chg') for cat, lst in lvl.get(a, {}).items() for x in lst)
+    for (cat, name), nn in notes.items():
+        if (nn.get('fail') or nn.get('warn')) and (cat, name) not in rec_del and name in H.master_db()[cat]:
+            if any(CONTROL_NOTE in t for t in nn.get('info', [])):
+                continue
+            e = H.master_db()[cat][name]
+            if e[0] and e[0][0] and any(not v.startswith(('d', 'l')) and not v.endswith('C') for v in e[0][0].split(',')):
+                out.append(('rated-algorithm-not-recommended-for-removal', cat, name))
+    return out
+
+
+def work_history(chunk, st):
+    import itertools
+    banner = b'SSH-2.0-OpenSSH_9.6'
+    for kinds in chunk:
+        servers = [history_server(k, banner) for k in kinds]
+        res, outs = H.audit_sequence(servers, opts=['-n', '--skip-rate-test', '-j'])
+        st.execution(res.world, outcome=('history', len(kinds)), root=('history', kinds), nontrivial=('history', kinds))
+        if not isinstance(outs, list) or len(outs) != len(kinds):
+            st.violation('history:output-shape', {'kinds': kinds, 'stdout': res.stdout[-200:]})
+            continue
+        for k, doc in zip(kinds, outs):
+            for what, cat, name in consistency_problems(doc):
+                st.violation('history:%s' % what, {'targets_in_run': kinds, 'target': k, 'cat': cat, 'name': name})
+    st.sample({'history': list(chunk[0])}, cap=12)
+
+
 def run(tier, seed):
     t0 = time.time()
     bs = banners(tier)
     tasks = [(b, k) for b in bs for k in PEER_KINDS]
     st = par.pmap(work, tasks, chunk=4)
+    import itertools
+    hist = list(itertools.permutations(HISTORY_KINDS, 2)) + (list(itertools.permutations(HISTORY_KINDS, 3)) if tier != 'quick' else
+                                                              [('exposed', 'terrapin-hardened', 'exposed'), ('smallrsa', 'clean', 'smallrsa'), ('gex2048', 'clean', 'gex2048')])
+    par.pmap(work_history, hist, stats=st, chunk=2)
     vcases = []
     for (prod, version, banner), kind in H.pick(tasks, seed, 12 if tier == 'quick' else 60):
         vcases.append({'label': '%s %s' % (banner, kind), 'opts': ['-n'] + (['-j'] if len(vcases) % 2 else []), 'make': (lambda kind=kind, banner=banner: make_server(kind, banner)[0])})
